@@ -330,6 +330,13 @@ def sec_linalg(ctx, rng, case):
             l2, d2, r2 = cirq.bidiagonalize_unitary_with_special_orthogonals(mat, check_preconditions=False)
             if all(ok for _, _, ok, _ in P.post_bidiagonalize_unitary(mat, l2, d2, r2, P.lin_tol(1.0))):
                 mech = BIDIAG_VE_MECH
+            elif _straddles(np.real(mat), 1e-8):
+                # the other recorded mechanism seen through the precondition re-check: the rank cut `<= atol` falls inside a
+                # cluster of equal singular values of Re(mat); the halves are then diagonalised separately, the intermediate
+                # block is not symmetric (this error) and without the re-check the result is wrong; moving the cut repairs it
+                l3, d3, r3 = cirq.bidiagonalize_unitary_with_special_orthogonals(mat, atol=1e-6, check_preconditions=False)
+                if all(ok for _, _, ok, _ in P.post_bidiagonalize_unitary(mat, l3, d3, r3, P.lin_tol(1.0))):
+                    mech = KAK_MECH
         _emit(ctx, [("bidiagonalize_unitary:diagonal", mech, False, "ValueError(%s) for a matrix that is unitary to %.1g" %
                      (e, L.maxdiff(mat @ mat.conj().T, np.eye(len(mat)))))], mat=mat, label=label)
         bl = None
